@@ -4,6 +4,7 @@ import ApolloModel.Proofs.ParserRecursion5
 import ApolloModel.Proofs.ParserTermination2
 import ApolloModel.Proofs.ParserRecursion9
 import ApolloModel.Proofs.ParserRecursion13
+import ApolloModel.Proofs.ParserRecursion17
 /-
 C04 — Token and recursion limits are enforced exactly.
 
@@ -236,24 +237,59 @@ example : (parse .selectionSet none 2 "{ a(x: [[1]]) { b { c } } }".toList).recH
 example : (parse .selectionSet none 1 "{ a(x: [[1]]) { b { c } } }".toList).recHigh = 2 ∧
     (parse .selectionSet none 1 "{ a(x: [[1]]) { b { c } } }".toList).errors.map (·.kind) = [.limit] := by decide +kernel
 
-/-- The statement for every entry point, with `depth` the maximal number of simultaneously open guarded
-    constructs.  Proved above: the `type` entry point (token-level depth), value.rs and the `selectionSet`
-    entry point (depth = high-water mark of the unlimited run).  NOT proved: the `document` entry point.
-    What is missing there, given the calculus of Proofs/ParserRecursion6–12 (`Plain`, `XG`, `xg_bind`,
-    `xg_ite`, `xg_withNode`, `xg_peekWhileKind`, `xg_peekWhileFlagLoop`, `xc_withRec`, `post_bump`):
-    (1) `Plain` for `wrapIf` (checkpoint / `wrap_node`), `popDrop`, `peekData`, `parseSeparatedList`,
-    `assertRecZero`, `peekWhile` with a plain body; (2) `XG (tyParse n)` — the list-type guard follows
-    `bump(L_BRACK)`, so `post_bump` applies as in `xc_selSetBody` — hence `ty`, `defaultValue`,
-    `inputValueDefinition`, `variableDefinition(s)`, `argumentsDefinition`; (3) `XG` for every definition parser
-    of operation.rs, fragment.rs (`fragment_definition`), schema.rs, scalar/object/interface/union/enum/
-    input-object definitions and extensions, directive definitions (Model/Grammar.lean from `operationType` to
-    `document`, ≈ 30 functions, each a structural one-liner over (1)–(2) and `xSel`); (4) the loop of
-    `document()`; (5) abort-freedom of the model on the `document` entry point (`parse_document_terminates`
-    does not exist yet; C01 has `parse_terminates_partial`). -/
-def rec_limit_iff_depth_statement (depth : Entry → Parse.Str → Nat) : Prop :=
-  ∀ (e : Entry) (r : Nat) (src : Parse.Str),
-    ((∃ x, x ∈ (parse e none r src).errors ∧ x.kind = .limit) ↔ depth e src > r) ∧
-    (parse e none r src).recHigh = min (depth e src) (r + 1)
+/-! ### The recursion limit across runs (growth): `Parser::parse` (documents) and all entry points
+
+Every definition parser of the grammar (operation.rs, fragment.rs, variable.rs, schema/scalar/object/
+interface/union/enum/input-object definitions and extensions, directive definitions, ty.rs through
+`checkpoint`/`wrap_node`) and the loop of `document()` go through the same two-run calculus
+(Proofs/ParserRecursion14–17); `Parse.parse_terminates` discharges abort-freedom for every entry point. -/
+
+/-- `Parser::parse` on a document with recursion limit `r` (no token limit), against the parse of the same
+    text with any limit `R ≥ r` that is not hit: the tracker stops at exactly `min depth (r + 1)`, the depth
+    being the high-water mark of the unlimited parse. -/
+theorem rec_high_exact_document (r R : Nat) (src : Parse.Str) (hrR : r ≤ R)
+    (hfree : (parse .document none R src).recHigh ≤ R) :
+    (parse .document none r src).recHigh = min (parse .document none R src).recHigh (r + 1) :=
+  (Parse.parse_cross .document r R src hrR hfree).1
+
+/-- …and a recursion-limit error is reported iff the unlimited parse went deeper than `r`. -/
+theorem rec_limit_iff_depth_document (r R : Nat) (src : Parse.Str) (hrR : r ≤ R)
+    (hfree : (parse .document none R src).recHigh ≤ R)
+    (hclean : ¬ ∃ e, e ∈ (parse .document none R src).errors ∧ e.kind = .limit) :
+    (∃ e, e ∈ (parse .document none r src).errors ∧ e.kind = .limit) ↔ (parse .document none R src).recHigh > r := by
+  have h := (Parse.parse_cross .document r R src hrR hfree).2
+  constructor
+  · intro hl
+    rcases h.mp hl with h1 | h1
+    · exact h1
+    · exact absurd h1 hclean
+  · intro hgt
+    exact h.mpr (Or.inl hgt)
+
+/-- The statement for every entry point, in cross-run form: the nesting depth of a source text is the
+    high-water mark of a parse whose limit `R` is not hit and that recorded no limit error ("the unlimited
+    tree"); with limit `r ≤ R` a recursion-limit error is reported iff that depth exceeds `r`, and the
+    tracker stops at exactly `min depth (r + 1)`. -/
+def rec_limit_iff_depth_statement : Prop :=
+  ∀ (e : Entry) (r R : Nat) (src : Parse.Str), r ≤ R → (parse e none R src).recHigh ≤ R →
+    (¬ ∃ x, x ∈ (parse e none R src).errors ∧ x.kind = .limit) →
+    ((∃ x, x ∈ (parse e none r src).errors ∧ x.kind = .limit) ↔ (parse e none R src).recHigh > r) ∧
+    (parse e none r src).recHigh = min (parse e none R src).recHigh (r + 1)
+
+/-- …proved for the three entry points `document`, `selectionSet`, `type`. -/
+theorem rec_limit_iff_depth_all_entry_points : rec_limit_iff_depth_statement := by
+  intro e r R src hrR hfree hclean
+  obtain ⟨h1, h2⟩ := Parse.parse_cross e r R src hrR hfree
+  refine ⟨⟨fun hl => ?_, fun hgt => h2.mpr (Or.inl hgt)⟩, h1⟩
+  rcases h2.mp hl with h | h
+  · exact h
+  · exact absurd h hclean
+
+-- a document with an operation, a fragment and a type definition (kernel-evaluated): depth 2
+example : (parse .document none 9 "query($v: [[Int]] = [[1]]) { a { b } } type T { f(x: [Int]): Int }".toList).recHigh = 2 := by
+  decide +kernel
+example : (parse .document none 1 "query($v: [[Int]] = [[1]]) { a { b } } type T { f(x: [Int]): Int }".toList).errors.map (·.kind) = [.limit] := by
+  decide +kernel
 
 -- Non-vacuity (kernel-evaluated): `[[Int]]` has depth 2; limit 1 stops at level 2, limit 2 does not stop
 example : Parse.typeDepth "[[Int]]".toList = 2 := by decide +kernel
